@@ -125,6 +125,9 @@ def answer : List String → String
       | some r => toString (totalUpTo r) | _ => "bad-op"
   | ["numrings", n] => match parseNat? n with
       | some n => toString (numRings n) | _ => "bad-op"
+  | ["neigh3", i, j, k] => match parseInt? i, parseInt? j, parseInt? k with
+      | some i, some j, some k => showList showCell (neighbours3 i j k)
+      | _, _, _ => "bad-op"
   | ["neigh", i, j] => match parseInt? i, parseInt? j with
       | some i, some j => showList showPair (neighbours i j)
       | _, _ => "bad-op"
